@@ -261,7 +261,7 @@ def h_family(ctx: Ctx, cfg):
 
 HARNESSES = {"family": h_family, "shipped": h_shipped, "tables": h_tables, "usable": h_usable, "min_depth_lower_bound": h_min_depth_lower_bound, "min_depth_witness": h_min_depth_witness, "recursion": h_recursion}
 
-CORPUS = [("f15", None), ("f14", None), ("f11", None), ("f12", None), ("f13", None), ("f9", None), ("f10", None), ("f3n", None), ("f8", None), ("f0", None), ("f1", None), ("f2", None), ("f2b", None), ("f3", None), ("f3b", None), ("f4", None), ("f5", None), ("f5ctx", None), ("f6", None),
+CORPUS = [("f16", None), ("f16", "grammar_neg"), ("f15", None), ("f14", None), ("f11", None), ("f12", None), ("f13", None), ("f9", None), ("f10", None), ("f3n", None), ("f8", None), ("f0", None), ("f1", None), ("f2", None), ("f2b", None), ("f3", None), ("f3b", None), ("f4", None), ("f5", None), ("f5ctx", None), ("f6", None),
           ("f7", "grammar_tuple"), ("f7", "grammar_tuple2"), ("f7", "grammar_union"), ("f7", "grammar_list"), ("f7", "grammar_mutual")]
 
 
